@@ -14,6 +14,7 @@ import (
 	"github.com/gdamore/tcell/v2"
 
 	"verif/core"
+	"verif/faketty"
 )
 
 func init() { register("C05", C05) }
@@ -89,6 +90,10 @@ func C05(r *core.Run) {
 	c05stall(r)
 	c05pendingStall(r)
 	c05escResize(r)
+	c05preInit(r)
+	c05acrossSuspend(r)
+	// input whose reads fill the reader's buffer exactly is delivered without further input
+	c02fullRead(r)
 	r.Count("schedule_points_hit", atomic.LoadInt64(&sc.hits))
 	r.Set("race_reports_in_this_run", "written to replays/C05-race.* by the race detector (decided by C10)")
 }
@@ -729,8 +734,20 @@ func c05channel(r *core.Run, ci int) {
 // redraw on a slow terminal while the second half of a key sequence is read:
 // the sequence must still come out as one key.
 func c05stall(r *core.Run) {
+	stallSplit(r, []byte("\x1b"), []byte("[A"), "key sequence ESC [A")
+}
+
+// stallSplit: an item split across two reads (first, second) that arrive promptly one after the
+// other while the main loop is held up past the escape timeout by a resize redraw on a slow
+// terminal; the result must be what the two parts give in one read. Rounds in which the harness
+// did not manage to deliver the second read inside the window are discarded, not judged.
+func stallSplit(r *core.Run, first, second []byte, label string) {
 	rounds := r.Pick(16, 300)
 	ti := Pristine("xterm-256color")
+	var want []NEv
+	if d, err := newDecoder(ti, "UTF-8", 20, 5); err == nil {
+		want, _, _ = d.whole(append(append([]byte{}, first...), second...))
+	}
 	for k := 0; k < rounds; k++ {
 		ls, err := startScreen(ti, 20, 5, nil)
 		if err != nil {
@@ -739,7 +756,7 @@ func c05stall(r *core.Run) {
 		}
 		wait := ls.startPoll(0x1d)
 		t1 := time.Now()
-		ls.tty.Feed([]byte("\x1b"))
+		ls.tty.Feed(first)
 		for i := 0; i < 300; i++ {
 			runtime.Gosched()
 		}
@@ -751,7 +768,7 @@ func c05stall(r *core.Run) {
 			stalled = atomic.LoadInt32(&ls.tty.InDelay) > 0
 			runtime.Gosched()
 		}
-		ls.tty.Feed([]byte("[A"))
+		ls.tty.Feed(second)
 		gap := time.Since(t1)
 		atomic.StoreInt64(&ls.tty.WriteDelayNS, 0)
 		ls.tty.Feed([]byte{0x1d})
@@ -766,10 +783,10 @@ func c05stall(r *core.Run) {
 			r.Count("stall_rounds_with_compromised_timing", 1)
 			r.Case("")
 		default:
-			r.Case(fmt.Sprintf("stall|%d", k))
+			r.Case(fmt.Sprintf("stall|%s|%d", label, k))
 			r.Count("stall_rounds", 1)
-			if len(got) != 1 || got[0].T != "key" || got[0].Key != tcell.KeyUp {
-				r.Violate("input:changed:stalled-main-loop", fmt.Sprintf("ESC and [A read %v apart while the main loop was held up 90 ms by a redraw on a slow terminal: delivered %s, expected one Up key", gap, evsStr(got)), nil)
+			if !evsEq(got, want) {
+				r.Violate("input:changed:stalled-main-loop", fmt.Sprintf("%s: %q and %q read %v apart while the main loop was held up 90 ms by a redraw on a slow terminal: delivered %s, expected %s", label, first, second, gap, evsStr(got), evsStr(want)), nil)
 			}
 		}
 	}
@@ -985,5 +1002,175 @@ func normEvsOfString(s string) []int {
 		return nil
 	default:
 		return []int{1}
+	}
+}
+
+// c05preInit: "every PostEvent that returns nil is delivered exactly once ... reports
+// ErrEventQFull exactly when it did not enqueue", also for events posted between the
+// construction of the screen and Init (a worker goroutine started early).
+func c05preInit(r *core.Run) {
+	ti := Pristine("xterm-256color")
+	for k := 0; k < r.Pick(4, 40); k++ {
+		tic := CopyTI(ti)
+		tic.PadChar = ""
+		ft := faketty.New(20, 5)
+		s, err := tcell.NewTerminfoScreenFromTtyTerminfo(ft, tic)
+		if err != nil {
+			r.Inconclusive(err.Error())
+			return
+		}
+		accepted := map[int64]bool{}
+		n := 1 + k%12
+		for i := 0; i < n; i++ {
+			id := int64(1000 + i)
+			if s.PostEvent(tcell.NewEventInterrupt(id)) == nil {
+				accepted[id] = true
+			}
+		}
+		ft.BeginApp()
+		err = s.Init()
+		ft.EndApp()
+		if err != nil {
+			r.Inconclusive("Init: " + err.Error())
+			return
+		}
+		ls := &liveScreen{s: s, tty: ft, ti: tic}
+		got := map[int64]int{}
+		evc := make(chan tcell.Event, 64)
+		go func() {
+			for {
+				ev := s.PollEvent()
+				evc <- ev
+				if ev == nil {
+					return
+				}
+			}
+		}()
+		ft.Feed([]byte{0x1d})
+		ok := false
+		deadline := time.After(20 * time.Second)
+	loop:
+		for {
+			select {
+			case ev := <-evc:
+				switch e := ev.(type) {
+				case nil:
+					break loop
+				case *tcell.EventInterrupt:
+					if id, isID := e.Data().(int64); isID {
+						got[id]++
+					}
+				case *tcell.EventKey:
+					if e.Key() == tcell.KeyCtrlRightSq {
+						ok = true
+						break loop
+					}
+				}
+			case <-deadline:
+				break loop
+			}
+		}
+		ls.judgeSentinel(r, ok, "events posted before Init")
+		ls.fini()
+		r.Case(fmt.Sprintf("preinit|%d", k))
+		if !ok {
+			continue
+		}
+		for id := range accepted {
+			if got[id] != 1 {
+				r.Violate("post:lost:before-init", fmt.Sprintf("PostEvent of event %d between the construction of the screen and Init returned nil, but the event was delivered %d times after Init (%d posted, %d accepted)", id, got[id], n, len(accepted)), nil)
+				return
+			}
+		}
+		for id, c := range got {
+			if !accepted[id] {
+				r.Violate("post:delivered-despite-full:before-init", fmt.Sprintf("PostEvent of event %d before Init returned an error but the event was delivered %d times", id, c), nil)
+				return
+			}
+		}
+	}
+}
+
+// c05acrossSuspend: the event stream belongs to the screen, not to one engagement: a
+// PollEvent blocked during Suspend/Resume keeps waiting (nil only after Fini), a
+// ChannelEvents channel stays open, and keys typed after Resume reach both.
+func c05acrossSuspend(r *core.Run) {
+	ti := Pristine("xterm-256color")
+	for k := 0; k < r.Pick(6, 60); k++ {
+		ls, err := startScreen(ti, 20, 5, nil)
+		if err != nil {
+			r.Inconclusive(err.Error())
+			return
+		}
+		s := ls.s
+		useChan := k%2 == 1
+		evc := make(chan tcell.Event, 64)
+		quit := make(chan struct{})
+		if useChan {
+			go s.ChannelEvents(evc, quit)
+		} else {
+			go func() {
+				for {
+					ev := s.PollEvent()
+					evc <- ev
+					if ev == nil {
+						return
+					}
+				}
+			}()
+		}
+		// let the consumer block on the empty queue
+		for s.HasPendingEvent() {
+			runtime.Gosched()
+		}
+		for i := 0; i < 200; i++ {
+			runtime.Gosched()
+		}
+		cycles := 1 + k%3
+		verdict := ""
+		for c := 0; c < cycles && verdict == ""; c++ {
+			ls.tty.BeginApp()
+			_ = s.Suspend()
+			_ = s.Resume()
+			ls.tty.EndApp()
+			ls.tty.Feed([]byte("q"))
+			deadline := time.After(20 * time.Second)
+			seen := false
+			for !seen && verdict == "" {
+				select {
+				case ev, open := <-evc:
+					switch {
+					case !open:
+						verdict = fmt.Sprintf("the ChannelEvents channel was closed by Suspend/Resume cycle %d although neither quit was closed nor Fini called", c+1)
+					case ev == nil:
+						verdict = fmt.Sprintf("PollEvent returned nil during Suspend/Resume cycle %d although the screen is not finished", c+1)
+					default:
+						if kev, isKey := ev.(*tcell.EventKey); isKey && kev.Rune() == 'q' {
+							seen = true
+						}
+					}
+				case <-deadline:
+					if lost, w := ls.sentinelLost(); lost {
+						verdict = fmt.Sprintf("a key typed after Resume (cycle %d) never reached the consumer; the library is idle (%s)", c+1, w)
+					} else {
+						verdict = "INCONCLUSIVE"
+					}
+				}
+			}
+		}
+		close(quit)
+		ls.fini()
+		r.Case(fmt.Sprintf("acrosssuspend|%d", k))
+		r.Count("across_suspend_rounds", 1)
+		if verdict == "INCONCLUSIVE" {
+			r.Inconclusive("across-suspend round: watchdog")
+		} else if verdict != "" {
+			how := "PollEvent loop"
+			if useChan {
+				how = "ChannelEvents"
+			}
+			r.Violate("events:engagement-bound", fmt.Sprintf("consumer = %s: %s", how, verdict), nil)
+			return
+		}
 	}
 }
